@@ -3,6 +3,7 @@ mod gast;
 mod lit;
 mod mv;
 mod nums;
+mod refparse;
 mod refsem;
 mod props;
 mod subj;
@@ -66,6 +67,18 @@ fn main() {
             });
             println!("{}", serde_json::to_string_pretty(&serde_json::json!({"failures": rep.failures, "hist": rep.hist, "samples": rep.samples})).unwrap());
             std::process::exit(if rep.failures.is_empty() { 0 } else { 1 });
+        }
+        "probe" => {
+            // dev aid: compile + execute each argument against the default context
+            for src in &args[2..] {
+                let ctx = cel_interpreter::Context::default();
+                let c = core::guard(|| cel_interpreter::Program::compile(src));
+                match c {
+                    Err(p) => println!("{:?} => COMPILE PANIC {}", src, p),
+                    Ok(Err(e)) => println!("{:?} => COMPILE ERR {}", src, e.to_string().replace('\n', " / ")),
+                    Ok(Ok(p)) => println!("{:?} => {}", src, subj::exec(&p, &ctx).show()),
+                }
+            }
         }
         _ => usage(),
     }
